@@ -151,7 +151,7 @@ func (r *Report) Finish(verifDir string, known *KnownFile) int {
 	count := map[string]int{}
 	for _, o := range r.Obls {
 		if !o.Control && o.Status != Undecided {
-			count[o.Rule]++
+			count[o.Rule] += o.Count
 		}
 	}
 	for rule, n := range r.floors {
